@@ -285,8 +285,9 @@ def run(ctx):
     ctx.trusted += [
         "kernel LPM-trie lookup contract (a stored key matches a /128 probe when its first prefixlen bits equal the probe's) — C12.lpmLookup; the native harness implements the kernel's longest-prefix rule independently in C (harness/c/bpf_shim.c)",
         "bpf_loop / array / hash / array-of-maps semantics as implemented by harness/c/bpf_shim.c; verifier acceptance, the 8M iteration cap and per-CPU scratch are not modelled",
-        "H2: the bitmap installed in domain_routing_map for the destination equals MatchDomainBitmap(domain) (C10/C11's subject); the harness installs the real MatchDomainBitmap output under the destination address before each packet",
-        "the reload is EXECUTED on real kernel BPF maps (snapshot.BuildKernspace = buildRoutingKernspace, clearReloadDomainRoutingMap, InheritLpmIndices/EjectLpmIndices, RebuildReloadDatapath = BuildKernspace+ReplaceLpmIndices+clear) and the maps are read back; not executed: CommitPreparedDatapath / NewControlPlane themselves (need a netns) — the harness calls their routing steps in the same order, and the presence of their clearReloadDomainRoutingMap call is checked textually",
+        "H2 (hypothesis of C02's theorems): the bitmap installed in domain_routing_map for the destination equals MatchDomainBitmap(the packet's own name). In the main stream the HARNESS writes that bitmap (production BpfMapBatchUpdate) — H2 by construction; in stream c02dom the control plane writes it (real DnsController -> tracker) and the table is checked against the cache-derived OR of the current generation's bitmaps. Two cached names on one address (kernel decides by the OR, Match(domain) by one name) is an inherent, documented difference (shared_address_or_observation), excluded by H2; the Compose theorem specifies the kernel side by the cache-derived knowledge (withLearnt), not by Match(domain)",
+        "needs real bpf(2): CAP_BPF for the maps and CAP_SYS_ADMIN for BPF_MAP_GET_FD_BY_ID (reading the inner LPM tries back); without them the check exits 2 (HARNESS-ENV-FAILED / HARNESS-FAILED), never a verdict",
+        "the reload is EXECUTED on real kernel BPF maps (snapshot.BuildKernspace = buildRoutingKernspace, clearReloadDomainRoutingMap, InheritLpmIndices/EjectLpmIndices, RebuildReloadDatapath = BuildKernspace+ReplaceLpmIndices+clear) and the maps are read back; not executed: CommitPreparedDatapath and the constructor newControlPlaneWithContextOptions (bindDaens needs a netns) — the harness calls their routing steps in the same order; every function of control_plane.go that calls BuildKernspace is checked TEXTUALLY (helpers expanded two levels) for clearReloadDomainRoutingMap occurring, and before replayDnsReloadCache; the ring start is read back from the installed images, not predicted",
         "the maps the harness creates (types, key/value sizes, max_entries) are those declared in tproxy.c — sizes cross-checked by the const ops; the real kernel LPM trie stores the keys, the native route() then runs on the shim's LPM implementation fed with the dumped keys",
         "translators/fakebpf (synthetic bpf2go declarations: bpfMatchSet, bpfPortRange, bpfDomainRouting with the field order of bpf_stub.go)",
         "C01 theorem match_is_first_match and C12 theorem kernel_userspace_same_set (imported, proved in the same lake build)",
@@ -299,8 +300,25 @@ def run(ctx):
 
     def prove():
         try:
-            ctx.prove(["DaeVerif.C02.Props", "DaeVerif.Compose.KernelDomain"], ["DaeVerif.C02.Props", "DaeVerif.Compose"],
-                      ["DaeVerif/C02/*.lean", "DaeVerif/Compose/*.lean"], extra_targets=["c02drv"])
+            import time as _t
+            for attempt in range(3):
+                ctx.proof_failures[:] = []
+                ctx.obligations[:] = []
+                ctx.prove(["DaeVerif.C02.Props", "DaeVerif.Compose.KernelDomain"], ["DaeVerif.C02.Props", "DaeVerif.Compose"],
+                          ["DaeVerif/C02/*.lean", "DaeVerif/Compose/*.lean"], extra_targets=["c02drv"])
+                # several agents build in the same lake workspace: a build that fails WITHOUT any Lean diagnostic
+                # ("no such file or directory" while another lake renames an artefact, audit tool not runnable) is
+                # infrastructure, retried; a Lean error (file:line) or a bad axiom is a real proof failure
+                infra = [f for f in ctx.proof_failures if (f.startswith("lake build failed") or f.startswith("axiom audit failed to run"))
+                         and not re.search(r"\.lean:\d+", f)]
+                if not infra:
+                    break
+                ctx.log.write(f"prove attempt {attempt + 1}: infrastructure failure, retrying: {infra[0][:300]}\n")
+                _t.sleep(10)
+            else:
+                thread_errors.append("lake could not build the unchanged proof modules (no Lean diagnostic, 3 attempts): " + infra[0][:400])
+                ctx.proof_failures[:] = []
+                return
             ctx.required_theorems(REQUIRED)
         except BaseException as e:  # a timeout / crash of lake must never look like "nothing to prove"
             thread_errors.append(f"prove step did not complete: {type(e).__name__}: {e}")
@@ -515,7 +533,8 @@ def run(ctx):
     ctx.assumptions = [
         "packets, programs and reload sequences are generated (seeded): what was not generated was not compared",
         "little-endian host/target (amd64): the big-endian case is a model-level theorem (decode_encode_bigendian_fails), not executed",
-        "the same ip-version flag is given to route() and Match (the kernel derives it from skb->protocol, Route() from the address family: an IPv6 frame to an IPv4-mapped address is outside the comparison)",
+        "the same ip-version flag is given to route() and Match, also for ::ffff:a.b.c.d destinations with flag 6 (generated); outside the comparison is how each side DERIVES the flag (kernel: skb->protocol in the hooks, userspace: ControlPlane.Route from the address family) — the hooks are C03's, Route() is exercised by C01",
+        "packets carry only values the three callers of route() can deliver (DSCP <= 63, process names NUL-terminated within 16 bytes, LAN without process name)",
     ]
     return ctx.finish(
         rule="one evaluation = (installed program after N reloads, packet) through real Go Match, native C route() on the bytes the Go "
